@@ -4,7 +4,7 @@ from ..rules import drivers, perm, step, tdvp
 META = {
     "title": "emu-mps TDVP runs reproduce the Pulser Hamiltonian dynamics",
     "technique": "static analysis: index-space typing (PERM), inductive step invariant of the driver by "
-                 "path-sensitive abstract interpretation, rational splitting coefficients, bath event automata",
+                 "path-sensitive abstract interpretation, rational splitting coefficients, bath event automata; path conditions of the sweep boundaries; call-order of the driver's init/run loop",
     "design_ref": "DESIGN.md §5 C02, A.1–A.3",
     "explanation": "PERM: drives, interaction matrix and initial state reach update_H/make_H/self.state in MPS "
                    "site order. STEP-mps: inductive invariant idx=i, current_time=T[i], target_time=T[i+1], "
